@@ -6,6 +6,24 @@ import os
 
 ROOT = os.path.dirname(os.path.dirname(os.path.abspath(__file__)))
 NOTES = {
+    "C01-r7-2": "missed at first (names were compared by their bytes only); caught after C01 also asserts the representation (text for valid UTF-8, bytes otherwise) that every spelling of a name must share",
+    "C02-r7-2": "same change as C10-r3-2 (members of object streams deciphered twice): C02 holds no encrypted documents; caught by C10",
+    "C04-r7-1": "missed at first (every page had content); caught after 8% of the pages have no /Contents or an empty array",
+    "C05-r7-2": "same change as C07-r7-1 (TJ adjustments of vertical text scaled by Tz): C05 has no vertical fonts; caught by C07",
+    "C05-r7-3": "missed at first (offsets of exactly 0 0 were never drawn); caught after Td / TD operands are 0 in a fifth / third of the cases",
+    "C06-r7-2": "missed at first (an off-by-one in the generator: no Differences run reached code 255); caught after runs end at 255, name it explicitly, or start at 0 (builder)",
+    "C06-r7-3": "missed at first (subset-tagged standard-14 names were lumped with the excluded standard-14 names); caught after fonts named TAG+Times-Roman etc. keep their own Widths and programs (builder)",
+    "C07-r7-2": "patch.diff rebased by the lead onto 62c9641 (the repair of the CMap range expansion touched the same lines); patch.orig.diff is the sub-agent's original",
+    "C08-r7-2": "missed at first (both interpretations compared went through end_figure); caught after the LTFigure tree is compared with the Do / BI invocations of the generated content and forms that paint nothing were added (builder)",
+    "C09-r7-1": "missed at first; caught after three-box column layouts (tall left box, heading and wide note on the right, all content orders) (builder)",
+    "C12-r7-1": "missed at first; caught after the pool got a font whose /Encoding names a non-existent CMap spelled like a character collection",
+    "C12-r7-2": "missed at first; caught after the pool got empty streams shared by the /Contents arrays of several pages",
+    "C13-r7-1": "caught once /Length of the encryption dictionary is replaced by a name / string / array (obj faults under /Encrypt are sampled with stride 3)",
+    "C13-r7-2": "missed at first (the first import run was flagged only because of a genuine defect of the then unchanged tree, since repaired: e852439); caught after the filters seed got a three-component PNG-predictor stream whose first rows use Paeth / Average",
+    "C13-r7-3": "caught by the thorough tier (the fault is one of ten replacements of one token of the one vertical-text operand; the quick tier samples a third of them); patch.diff rebased by the lead onto e852439, patch.orig.diff is the sub-agent's original",
+    "C14-r7-2": "missed at first (inputs were always io.BytesIO); caught after every input is also tokenized through a stream whose read() delivers 1-5 bytes per call",
+    "C15-r7-1": "missed at first; caught after image and embedded-file names with compatibility forms of the separators and dots (U+FF0F, U+FF3C, U+FF0E, U+2024 ...) (builder)",
+    "C16-r7-1": "the rotation option of extract_text_to_fp: a page-geometry matter caught by C04 (rotation_option); C16 does not rotate pages",
     "C02-r6-2": "enumerating the pages writes inherited attributes into the cached page dictionary: C02's histories hold no page trees and are silent; caught by C04 after it re-reads every page object after the enumeration (page_object_changed_by_enumeration)",
     "C02-r6-3": "missed at first (no revision ever redefined an object as null); caught after update revisions may set an object to the null object",
     "C04-r6-2": "missed at first by C04 (C01 caught the kept null entries); caught by C04 after 6% of the absent inheritable keys are written with the null object",
